@@ -365,6 +365,24 @@ def published_window_immutable(prog, res):
     res.need(R, 2)
 
 
+def first_block_flag(prog, res):
+    """T3: `isFirstBlock` is what keeps a frame from starting with an RLE block followed by more blocks (old decoders reject
+    that).  It may be cleared only after a block has actually been produced: every `isFirstBlock = 0` in the frame-chunk
+    writer is preceded, on every path, by a block-compression call."""
+    R = "T3.first-block-flag"
+    f = prog.fn("ZSTD_compress_frameChunk")
+    clr = f.find_roots(lambda x: x.get("k") == "asg" and strip_casts(x["lhs"]).get("f") == "isFirstBlock" and const_val(x["rhs"]) == 0)
+    blk = f.call_roots(("ZSTD_compressBlock_internal", "ZSTD_compressBlock_splitBlock", "ZSTD_compressBlock_targetCBlockSize", "ZSTD_noCompressBlock"))
+    res.check(len(clr) >= 1 and len(blk) >= 2, R, "shape", f.loc, "%d clearing(s) of isFirstBlock, %d block emitters" % (len(clr), len(blk)),
+              "ZSTD_compress_frameChunk: clearings of isFirstBlock %d, block emitters %d" % (len(clr), len(blk)))
+    for c in clr:
+        res.check(f.must_pass(via_roots=blk, targets=[c]), R, "cleared-after-a-block@%s" % f.blocks[c[0]]["el"][c[1]].get("l"), f.loc,
+                  "isFirstBlock is cleared only after a block was emitted",
+                  "ZSTD_compress_frameChunk clears isFirstBlock before any block of the chunk was emitted: a frame whose block size is below 128 KB can "
+                  "start with an RLE block followed by more blocks")
+    res.need(R, 2)
+
+
 def run(tier):
     res = Result("C05", tier)
     tus, info = extract(["compress", "decompress", "common"])
@@ -376,6 +394,7 @@ def run(tier):
     window_enforcement(prog, res)
     interop_rules(prog, res)
     published_window_immutable(prog, res)
+    first_block_flag(prog, res)
     return res.finish(
         explanation="Frame-header writer and reader agree with each other and with the format document on descriptor bit "
                     "positions, reserved bit, size-code thresholds, per-code field widths and the 256 bias; header "
